@@ -573,3 +573,190 @@ Proof. induction h as [|op h IH]; intros s W; simpl; [exact W|]. apply IH. apply
 
 Lemma run_wf : forall lv h, wf (al_run lv h).
 Proof. intros. unfold al_run. apply fold_wf. apply wf_init. Qed.
+
+(* ------------------------------------------------------------------ *)
+(* frame: an operation changes only the object it acts on              *)
+(* ------------------------------------------------------------------ *)
+Lemma aval_ext : forall s s' g o,
+  nth_error (s_objs s) g = Some o -> nth_error (s_objs s') g = Some o ->
+  (forall l, In l (oclauses o) -> cell_val (s_heap s') l = cell_val (s_heap s) l) ->
+  nth (ohdr o) (s_hdrs s') [] = nth (ohdr o) (s_hdrs s) [] ->
+  aval s' g = aval s g.
+Proof.
+  intros s s' g o H H' Hc Hh. unfold aval. rewrite H, H'. unfold hdr_at. rewrite Hh.
+  rewrite (map_ext_in _ _ _ Hc). reflexivity.
+Qed.
+
+Lemma cell_val_extend : forall s cs g o l,
+  wf s -> nth_error (s_objs s) g = Some o -> In l (oclauses o) ->
+  cell_val (s_heap s ++ cs) l = cell_val (s_heap s) l.
+Proof.
+  intros s cs g o l W Hg Hl. apply cell_val_app_l.
+  - pose proof (wf_cl s W g o Hg) as Hb. rewrite Forall_forall in Hb. apply Hb. exact Hl.
+  - apply (wf_refs s W).
+Qed.
+
+Definition utouches (s : astate) (u : uop) (g : nat) : bool :=
+  match u with
+  | UAddCells f _ _ | USetHdr f _ => Nat.eqb f g
+  | UMut l _ => match nth_error (s_objs s) g with
+                | Some o => nat_in l (obj_reach (s_heap s) o)
+                | None => false
+                end
+  | _ => false
+  end.
+
+Lemma ustep_frame : forall s u g,
+  wf s -> g < List.length (s_objs s) -> utouches s u g = false -> aval (ustep s u) g = aval s g.
+Proof.
+  intros s u g W Hg Ht.
+  destruct (nth_error (s_objs s) g) as [o|] eqn:Ho; [|apply nth_error_None in Ho; lia].
+  destruct u as [c|c|f nv cs|k nv cs hd|ls|f hd|l m]; simpl in *.
+  - apply (aval_ext _ _ g o Ho); simpl; auto. intros l Hl. exact (cell_val_extend s _ g o l W Ho Hl).
+  - apply (aval_ext _ _ g o Ho); simpl; auto. intros l Hl. exact (cell_val_extend s _ g o l W Ho Hl).
+  - destruct (nth_error (s_objs s) f) as [of|] eqn:Hf; [|reflexivity].
+    apply Nat.eqb_neq in Ht.
+    apply (aval_ext _ _ g o Ho); simpl; auto.
+    + rewrite nth_error_hp_set_neq by exact Ht. exact Ho.
+    + intros l Hl. exact (cell_val_extend s _ g o l W Ho Hl).
+  - apply (aval_ext _ _ g o Ho); simpl; auto.
+    + apply nth_error_app_l. exact Ho.
+    + intros l Hl. exact (cell_val_extend s _ g o l W Ho Hl).
+    + apply app_nth1. eapply wf_hd; eauto.
+  - apply (aval_ext _ _ g o Ho); simpl; auto.
+  - destruct (nth_error (s_objs s) f) as [of|] eqn:Hf; [|reflexivity].
+    apply Nat.eqb_neq in Ht.
+    apply (aval_ext _ _ g o Ho); simpl; auto.
+    apply nth_hp_set_neq. eapply (wf_hdr_inj s W f g); eauto.
+  - rewrite Ho in Ht. apply nat_in_false in Ht. unfold obj_reach in Ht.
+    apply (aval_ext _ _ g o Ho); simpl; auto.
+    intros c Hc. apply cell_val_ext.
+    + apply hp_get_set_neq. intros ->. apply Ht. apply in_or_app. left. exact Hc.
+    + intros p Hp. unfold lits_at. rewrite hp_get_set_neq; [reflexivity|].
+      intros ->. apply Ht. apply in_or_app. right. apply in_flat_map. exists c. split; assumption.
+Qed.
+
+Definition ustatic (u : uop) (g : nat) : bool :=
+  match u with
+  | UAddCells f _ _ | USetHdr f _ => Nat.eqb f g
+  | UMut _ _ => true
+  | _ => false
+  end.
+
+Lemma ustatic_utouches : forall s u g, ustatic u g = false -> utouches s u g = false.
+Proof. intros s u g H. destruct u; simpl in *; auto. discriminate. Qed.
+
+Lemma ustep_objs_length : forall s u, List.length (s_objs s) <= List.length (s_objs (ustep s u)).
+Proof.
+  intros s u. destruct u; simpl; try lia.
+  - destruct (nth_error (s_objs s) f); simpl; [rewrite hp_set_length|]; lia.
+  - rewrite app_length. simpl. lia.
+  - destruct (nth_error (s_objs s) f); simpl; lia.
+Qed.
+
+Lemma usteps_frame : forall us s g,
+  wf s -> Forall (uop_wfok (List.length (s_heap s))) us -> g < List.length (s_objs s) ->
+  Forall (fun u => ustatic u g = false) us -> aval (fold_left ustep us s) g = aval s g.
+Proof.
+  induction us as [|u us IH]; intros s g W Hok Hg Hst; simpl; [reflexivity|].
+  inversion Hok as [|u' us' Hu Hus]; subst. inversion Hst as [|u'' us'' Hsu Hsus]; subst.
+  rewrite IH.
+  - apply ustep_frame; auto. apply ustatic_utouches. exact Hsu.
+  - apply ustep_wf; assumption.
+  - eapply Forall_impl; [|exact Hus]. intros u0 H0. eapply uop_wfok_mono; [|exact H0]. apply ustep_heap_length.
+  - pose proof (ustep_objs_length s u). lia.
+  - exact Hsus.
+Qed.
+
+Lemma add_cells_static : forall f g x, Nat.eqb f g = false -> Forall (fun u => ustatic u g = false) (fst (add_cells f x)).
+Proof. intros f g [[nv cs] r] H. simpl. destruct cs; simpl; constructor; [exact H|constructor]. Qed.
+
+Lemma transform_static : forall s t o g, Forall (fun u => ustatic u g = false) (fst (transform s t o)).
+Proof.
+  intros s t o g. unfold transform. destruct t as [|k|k|fl pm cp].
+  - destruct (flip_polarity_spec (onumvar o) (obj_cnf s o)). simpl. repeat constructor.
+  - destruct (xor_substitution (onumvar o) k (obj_cnf s o)) as [[nv out]|]; simpl; repeat constructor.
+  - destruct (or_substitution (onumvar o) k (obj_cnf s o)) as [[nv out]|]; simpl; repeat constructor.
+  - destruct (sharg_of s fl); [|simpl; constructor]. destruct (sharg_of s pm); [|simpl; constructor].
+    destruct (sharg_of s cp); [|simpl; constructor].
+    destruct (shuffle (onumvar o) (obj_cnf s o) s0 s1 s2); simpl; repeat constructor.
+Qed.
+
+Lemma compile_static : forall lv s op g,
+  is_mut op = false -> touches s op g = false -> Forall (fun u => ustatic u g = false) (fst (compile lv s op)).
+Proof.
+  intros lv s op g Hm Ht. destruct op; simpl in *; try discriminate.
+  - repeat constructor.
+  - destruct (resolve_terms s ts); simpl; repeat constructor.
+  - repeat constructor.
+  - destruct k.
+    + destruct (collect (one_clause s KCnf true) 0 hs) as [[nv cs] r]. destruct r; simpl; repeat constructor.
+    + destruct (collect (one_constraint (lv_pair lv) s true) 0 hs) as [[nv cs] r]. destruct r; simpl; repeat constructor.
+  - destruct (nth_error (s_objs s) f); simpl; [|constructor]. apply add_cells_static. exact Ht.
+  - destruct (nth_error (s_objs s) f); simpl; [|constructor]. apply add_cells_static. exact Ht.
+  - destruct (nth_error (s_objs s) f) as [ob|]; simpl; [|constructor].
+    destruct (read_lits s h) as [xs|]; simpl; [|constructor].
+    destruct (linear_cells (okind ob) xs o c); simpl; [|constructor].
+    destruct (check && has_zero xs)%bool; simpl; [constructor|].
+    apply Forall_app. split; [destruct o; simpl; repeat constructor|]. constructor; [exact Ht|constructor].
+  - destruct (nth_error (s_objs s) f) as [ob|]; simpl; [|constructor].
+    destruct (read_lits s h) as [xs|]; simpl; [|constructor].
+    destruct (check && has_zero xs)%bool; simpl; constructor; [exact Ht|constructor].
+  - destruct (nth_error (s_objs s) f) as [o|]; simpl; [|constructor].
+    destruct (okind o); simpl; [constructor|]. apply add_cells_static. exact Ht.
+  - destruct (nth_error (s_objs s) f) as [o|]; simpl; [|constructor].
+    destruct (okind o); simpl; [constructor|]. apply add_cells_static. exact Ht.
+  - destruct (nth_error (s_objs s) f) as [o|]; simpl; [|constructor].
+    destruct (nth_error (oclauses o) i); simpl; repeat constructor.
+  - destruct (nth_error (s_objs s) f) as [o|]; simpl; [|constructor].
+    destruct (lv_iter lv); simpl; [repeat constructor|]. apply Forall_map_all. reflexivity.
+  - destruct (nth_error (s_objs s) f) as [o|]; simpl; [|constructor].
+    destruct (lv_iter lv); simpl; [repeat constructor|]. apply Forall_map_all. reflexivity.
+  - destruct (nth_error (s_objs s) f) as [o|]; simpl; constructor; [exact Ht|constructor].
+  - destruct (nth_error (s_objs s) f) as [o|]; simpl; [|constructor].
+    destruct (has_key (hdr_at s o) k); simpl; constructor; [exact Ht|constructor].
+  - destruct (nth_error (s_objs s) f) as [o|]; simpl; [|constructor].
+    destruct (okind o); simpl; [|constructor].
+    destruct (lits_in_range (onumvar o) (obj_cnf s o)); simpl; [|constructor]. apply transform_static.
+Qed.
+
+(* THE FRAME PROPERTY, for one operation in any well-formed state *)
+Lemma step_frame : forall lv s op g,
+  wf s -> g < List.length (s_objs s) -> touches s op g = false -> aval (al_step lv s op) g = aval s g.
+Proof.
+  intros lv s op g W Hg Ht. rewrite al_step_eq.
+  destruct (is_mut op) eqn:Hm.
+  - destruct op; try discriminate. simpl in *.
+    destruct (handle_loc s h) as [l|] eqn:Hl; simpl; [|reflexivity].
+    apply (ustep_frame s (UMut l m) g W Hg). simpl. exact Ht.
+  - apply usteps_frame; auto.
+    + apply compile_wfok. exact W.
+    + apply compile_static; assumption.
+Qed.
+
+Lemma usteps_objs_length : forall us s, List.length (s_objs s) <= List.length (s_objs (fold_left ustep us s)).
+Proof.
+  induction us as [|u us IH]; intros s; simpl; [lia|]. specialize (IH (ustep s u)). pose proof (ustep_objs_length s u). lia.
+Qed.
+
+Lemma step_objs_length : forall lv s op, List.length (s_objs s) <= List.length (s_objs (al_step lv s op)).
+Proof. intros. rewrite al_step_eq. apply usteps_objs_length. Qed.
+
+(* a whole suffix that never acts on g *)
+Fixpoint untouched (lv : liveness) (s : astate) (h : list aop) (g : nat) : bool :=
+  match h with
+  | [] => true
+  | op :: t => negb (touches s op g) && untouched lv (al_step lv s op) t g
+  end.
+
+Lemma suffix_frame : forall lv h s g,
+  wf s -> g < List.length (s_objs s) -> untouched lv s h g = true ->
+  aval (fold_left (al_step lv) h s) g = aval s g.
+Proof.
+  intros lv. induction h as [|op h IH]; intros s g W Hg Hu; simpl in *; [reflexivity|].
+  apply andb_true_iff in Hu. destruct Hu as [H1 H2]. apply negb_true_iff in H1.
+  rewrite IH; auto.
+  - apply step_frame; assumption.
+  - apply step_wf. exact W.
+  - pose proof (step_objs_length lv s op). lia.
+Qed.
